@@ -322,6 +322,11 @@ func (e *explorer) node(prefix []int, trace bool) [][]int {
 			}
 		}
 	}
+	if e.scn.Single && e.mem == nil {
+		// one execution is the whole scenario: nobody takes the alternatives (with hundreds of threads
+		// and thousands of choice points their prefixes alone are gigabytes)
+		return nil
+	}
 	var kids [][]int
 	pre, dev := cost(r.Choices[:min(len(prefix), len(r.Choices))], e.scn.Delay)
 	for i := len(prefix); i < len(r.Choices); i++ {
